@@ -7,6 +7,8 @@
   the value `tieSeen` tests is exactly the value `digitsOf` hands to `roundl`.
 -/
 import IgrisModel.C13.Tie
+import IgrisModel.C13.Lemmas
+import IgrisModel.C13.IntW
 namespace Igris.C13
 open Igris.C06 (Ops)
 
@@ -81,5 +83,88 @@ theorem tieSeen_eq_pre_aux {α : Type} (A : Arith α) (cfg : Cfg) (fuel : Nat) (
     · rename_i h2; simp only [h2]
       rename_i we _ _
       cases we <;> rfl
+
+/-! ### the sizes the emission part computes with, from `printF` itself (for `print_f_no_int_overflow`) -/
+
+theorem intLoop_used {α : Type} (A : Arith α) (cfg : Cfg) (upper : Bool) (hr : cfg.repaired = true) :
+    ∀ (n : Nat) (ip : α) (b : Buf), b.used < cfg.size → cfg.size < b.used + n →
+      Good (fun b' => b'.used ≤ cfg.size) (intLoop A cfg upper n ip b) := by
+  intro n
+  induction n with
+  | zero => intro ip b h1 h2; omega
+  | succ n ih =>
+    intro ip b h1 h2
+    unfold intLoop
+    refine (good_toIntM A _).bind fun v _ => ?_
+    refine (good_putBody (digitChar upper v) h1).bind fun b' hb' => ?_
+    subst hb'
+    dsimp only
+    split
+    · rename_i hc
+      simp [hr] at hc
+      exact ih _ _ (by simpa using hc.2) (by simp; omega)
+    · simp; omega
+
+/-- `good_fillBuf` with the size of the result: a buffer that `fillBuf` returns uses at most `size` bytes -/
+theorem good_fillBuf_used {α : Type} (A : Arith α) (cfg : Cfg) (hr : cfg.repaired = true) (hfit : cfg.Fits)
+    (ops : Ops) (isShort : Bool) (d : Digits α) (hd : d.signCount ≤ cfg.fracMax) :
+    Good (fun b => b.used ≤ cfg.size) (fillBuf A cfg ops isShort d) := by
+  unfold Cfg.Fits at hfit
+  unfold fillBuf
+  have h0 : ¬ cfg.size = 0 := by omega
+  simp only [h0, if_false, hr, if_true]
+  · refine Good.bind (Q := fun b : Buf => b.body = [] ∧ b.used ≤ max cfg.expMax 1 + 5) ?_ (fun b hb => ?_)
+    · split
+      · refine (expLoop_safe A cfg ops.upper hr (max cfg.expMax 1) d.ep {} (by omega) (by simp; omega)
+          (by simp [Buf.used]; omega)).bind (fun r hr1 => ?_)
+        obtain ⟨ep, b⟩ := r
+        obtain ⟨post, sep, body⟩ := b
+        simp at hr1
+        obtain ⟨h1, h2, hlen⟩ := hr1
+        subst h1 h2
+        refine Good.bind (Q := fun b' : Buf => b'.sep = false ∧ b'.body = [] ∧ b'.post.length ≤ 1 + max cfg.expMax 1) ?_ (fun b1 h1 => ?_)
+        · split
+          · refine (good_putPost '0' (by simp [Buf.used]; omega)).mono (fun b' hb' => ?_)
+            subst hb'
+            simp; omega
+          · simp; omega
+        · obtain ⟨post1, sep1, body1⟩ := b1
+          simp at h1
+          obtain ⟨h1a, h1b, h1c⟩ := h1
+          subst h1a h1b
+          refine (good_putPost _ (by simp [Buf.used]; omega)).bind (fun b2 h2 => ?_)
+          subst h2
+          refine (good_putPost _ (by simp [Buf.used]; omega)).bind (fun b3 h3 => ?_)
+          subst h3
+          rw [if_pos (by simp [Buf.used]; omega)]
+          simp [Buf.used]
+          omega
+      · simp [Buf.used]
+    · refine (fracLoop_safe A cfg ops.upper d.signCount d.fp b (by omega)).bind (fun b1 h1 => ?_)
+      refine Good.bind (Q := fun b' : Buf => b'.used ≤ b1.used + 1) ?_ (fun b2 h2 => ?_)
+      · split
+        · refine (good_putBody '.' (by omega)).mono (fun b' hb' => ?_)
+          subst hb'; simp
+        · simp
+      · have hb2 : 1 ≤ b2.used := by simp [Buf.used]; omega
+        exact intLoop_used A cfg ops.upper hr (cfg.size + 1) d.ip b2 (by omega) (by omega)
+
+/-- without `%g` the precision field of the digit record is the requested precision (6 when none is given) -/
+theorem digitsOf_precision_fe {α : Type} (A : Arith α) (cfg : Cfg) (fuel : Nat) (r : α) (precision : Int) (ops : Ops)
+    (withExp : Bool) (d : Digits α) (h : digitsOf A cfg fuel r precision ops withExp false = .ok d) :
+    d.precision = if ops.prec then precision else 6 := by
+  rw [digitsOf_eq_pre_aux] at h
+  cases hp : digitsPre A cfg fuel r precision ops withExp false with
+  | error e => simp [hp, Except.map] at h
+  | ok p =>
+    simp only [hp, Except.map, Except.ok.injEq] at h
+    subst h
+    show p.precision = _
+    unfold digitsPre at hp
+    simp only [bind, Except.bind, pure, Except.pure, Bool.or_false, Bool.false_eq_true, if_false] at hp
+    split at hp
+    · cases hp
+    · cases hp
+      rfl
 
 end Igris.C13
